@@ -106,7 +106,7 @@ var TypeSyntaxWriter dsl.TypeSyntaxWriter[string] = func(self dsl.TypeSyntaxWrit
 		meta := t.GetDefinitionMeta()
 		typeName := TypeIdentifierName(meta.Name)
 		if t.GetDefinitionMeta().Namespace != contextNamespace {
-			typeName = fmt.Sprintf("%s.%s", formatting.ToSnakeCase(meta.Namespace), typeName)
+			typeName = fmt.Sprintf("%s.%s", NamespaceIdentifierName(meta.Namespace), typeName)
 		}
 
 		typeSyntax := typeName
@@ -194,7 +194,7 @@ var typeSyntaxWithoutTypeParametersWriter dsl.TypeSyntaxWriter[string] = func(se
 			meta := t.GetDefinitionMeta()
 			typeName := TypeIdentifierName(meta.Name)
 			if t.GetDefinitionMeta().Namespace != contextNamespace {
-				typeName = fmt.Sprintf("%s.%s", formatting.ToSnakeCase(meta.Namespace), typeName)
+				typeName = fmt.Sprintf("%s.%s", NamespaceIdentifierName(meta.Namespace), typeName)
 			}
 
 			return typeName
@@ -344,7 +344,13 @@ func TypeArrayTypeArgument(t dsl.Type) string {
 }
 
 func NamespaceIdentifierName(namespace string) string {
-	return formatting.ToSnakeCase(namespace)
+	snakeCased := formatting.ToSnakeCase(namespace)
+	if _, reserved := reservedNames[snakeCased]; !reserved {
+		return snakeCased
+	}
+
+	// a package named like a keyword cannot be imported
+	return fmt.Sprintf("%s_", snakeCased)
 }
 
 func TypeNamespaceIdentifierName(t dsl.TypeDefinition) string {
